@@ -75,3 +75,139 @@ Theorem C01_loop_binary_equals_unary : forall (S R : Type) (body : S -> S + R) n
   loop_N body n s = loop_nat body (N.to_nat n) s.
 Proof. exact @loop_N_nat. Qed.
 Print Assumptions C01_loop_binary_equals_unary.
+
+From V Require Import Base Tensor Graph GraphProofs GraphImpl Hash Def Paths BfsStep Bfs BfsRun BfsProofs PathsProofs Mitm MitmProofs PathRun MitmFind Interactive InteractiveBetween InstPerm InstSmall InstBfs InstPaths.
+
+(* END TO END for the concrete permutation-graph implementation model impl_of d: every structural hypothesis of C01_bfs_completed_correct is discharged from wf_perm_desc d (InstPerm.v); only NoColl on the states of the right length and alphabet remains *)
+Theorem C01_perm_completed_correct :
+  forall (d : gdesc) (cfg : bfs_cfg),
+         wf_perm_desc d ->
+         flag_sound d ->
+         NoCollOn (impl_of d) (Ustates d) ->
+         1 <= batch_size cfg ->
+         forall starts : list state,
+         (forall s : state, In s starts -> Ustates d s) ->
+         starts <> [] ->
+         forall o : bfs_out,
+         bfs (impl_of d) cfg starts = Ok o ->
+         completed o = true ->
+         let L := fun i : nat => layer state st_eq_dec (acts (impl_of d)) starts i in
+         let D := length (sizes o) in
+         sizes o = map (fun i : nat => length (L i)) (seq 0 D) /\
+         (forall i : nat, (i < D)%nat -> L i <> []) /\
+         (forall i : nat, (D <= i)%nat -> L i = []) /\
+         (forall (k : nat) (l : list state), In (k, l) (layers o) -> NoDup l /\ set_eq l (L k)) /\
+         (exists l : list state, In ((D - 1)%nat, l) (layers o)) /\
+         (exists l : list state, In (0%nat, l) (layers o)).
+Proof. exact @bfs_perm_completed_correct. Qed.
+Print Assumptions C01_perm_completed_correct.
+
+(* single-word codes (identity hash): NO hash hypothesis at all - the BFS model returns exactly the distance classes *)
+Theorem C01_perm_identity_hash_unconditional :
+  forall (d : gdesc) (cfg : bfs_cfg),
+         wf_perm_desc d ->
+         flag_sound d ->
+         g_hasher d = HIdentity ->
+         single_word d ->
+         1 <= batch_size cfg ->
+         forall starts : list state,
+         (forall s : state, In s starts -> Ustates d s) ->
+         starts <> [] ->
+         forall o : bfs_out,
+         bfs (impl_of d) cfg starts = Ok o ->
+         completed o = true ->
+         let L := fun i : nat => layer state st_eq_dec (acts (impl_of d)) starts i in
+         let D := length (sizes o) in
+         sizes o = map (fun i : nat => length (L i)) (seq 0 D) /\
+         (forall i : nat, (i < D)%nat -> L i <> []) /\
+         (forall i : nat, (D <= i)%nat -> L i = []) /\
+         (forall (k : nat) (l : list state), In (k, l) (layers o) -> NoDup l /\ set_eq l (L k)) /\
+         (exists l : list state, In ((D - 1)%nat, l) (layers o)) /\
+         (exists l : list state, In (0%nat, l) (layers o)).
+Proof. exact @bfs_perm_identity_hash_unconditional. Qed.
+Print Assumptions C01_perm_identity_hash_unconditional.
+
+(* and it reports completion whenever no limit can fire (no hash hypothesis) *)
+Theorem C01_perm_identity_hash_completes :
+  forall (d : gdesc) (cfg : bfs_cfg),
+         wf_perm_desc d ->
+         flag_sound d ->
+         g_hasher d = HIdentity ->
+         single_word d ->
+         1 <= batch_size cfg ->
+         forall starts : list state,
+         (forall s : state, In s starts -> Ustates d s) ->
+         starts <> [] ->
+         let L := fun i : nat => layer state st_eq_dec (acts (impl_of d)) starts i in
+         stop cfg = None ->
+         (forall i : nat, Z.of_nat (length (L i)) < max_explore cfg) ->
+         (exists k : nat, (k <= N.to_nat (max_diameter cfg))%nat /\ L k = []) ->
+         exists o : bfs_out, bfs (impl_of d) cfg starts = Ok o /\ completed o = true.
+Proof. exact @bfs_perm_identity_hash_completes_unconditional. Qed.
+Print Assumptions C01_perm_identity_hash_completes.
+
+(* two descriptions with the same permutations (any widths, hashers, seeds, batch sizes): same sizes, same layers as sets *)
+Theorem C01_perm_config_independent :
+  forall (d1 d2 : gdesc) (cfg1 cfg2 : bfs_cfg) (starts : list state) (o1 o2 : bfs_out),
+         wf_perm_desc d1 ->
+         flag_sound d1 ->
+         NoCollOn (impl_of d1) (Ustates d1) ->
+         wf_perm_desc d2 ->
+         flag_sound d2 ->
+         NoCollOn (impl_of d2) (Ustates d2) ->
+         desc_perms d1 = desc_perms d2 ->
+         1 <= batch_size cfg1 ->
+         1 <= batch_size cfg2 ->
+         (forall s : state, In s starts -> Ustates d1 s /\ Ustates d2 s) ->
+         starts <> [] ->
+         bfs (impl_of d1) cfg1 starts = Ok o1 ->
+         bfs (impl_of d2) cfg2 starts = Ok o2 ->
+         completed o1 = true ->
+         completed o2 = true ->
+         sizes o1 = sizes o2 /\
+         (forall (k : nat) (l1 l2 : list state),
+          In (k, l1) (layers o1) -> In (k, l2) (layers o2) -> set_eq l1 l2).
+Proof. exact @bfs_perm_config_independent. Qed.
+Print Assumptions C01_perm_config_independent.
+
+From V Require Import Base Tensor Graph GraphProofs GraphImpl Hash Matrix MatrixProofs Def Paths BfsStep Bfs BfsRun BfsProofs PathsProofs Mitm MitmProofs PathRun MitmFind InstShared InstMatrix InstMatrixAlgebra InstMatrixBfs.
+
+(* END TO END for the concrete matrix-graph implementation model: all structural hypotheses discharged from wf_matrix_desc d; only NoColl on reduced vectors remains *)
+Theorem C01_matrix_completed_correct :
+  forall (d : gdesc) (cfg : bfs_cfg),
+         wf_matrix_desc d = true ->
+         NoCollMat d ->
+         1 <= batch_size cfg ->
+         forall starts : list state,
+         (forall s : state, In s starts -> Umat d s) ->
+         starts <> [] ->
+         forall o : bfs_out,
+         bfs (impl_of d) cfg starts = Ok o ->
+         completed o = true ->
+         let L := fun i : nat => layer state st_eq_dec (acts (impl_of d)) starts i in
+         let D := length (sizes o) in
+         sizes o = map (fun i : nat => length (L i)) (seq 0 D) /\
+         (forall i : nat, (i < D)%nat -> L i <> []) /\
+         (forall i : nat, (D <= i)%nat -> L i = []) /\
+         (forall (k : nat) (l : list state), In (k, l) (layers o) -> NoDup l /\ set_eq l (L k)) /\
+         (exists l : list state, In ((D - 1)%nat, l) (layers o)) /\
+         (exists l : list state, In (0%nat, l) (layers o)).
+Proof. exact @matrix_bfs_completed_correct. Qed.
+Print Assumptions C01_matrix_completed_correct.
+
+(* completion, same hypotheses *)
+Theorem C01_matrix_completes :
+  forall (d : gdesc) (cfg : bfs_cfg),
+         wf_matrix_desc d = true ->
+         NoCollMat d ->
+         1 <= batch_size cfg ->
+         forall starts : list state,
+         (forall s : state, In s starts -> Umat d s) ->
+         starts <> [] ->
+         let L := fun i : nat => layer state st_eq_dec (acts (impl_of d)) starts i in
+         stop cfg = None ->
+         (forall i : nat, Z.of_nat (length (L i)) < max_explore cfg) ->
+         (exists k : nat, (k <= N.to_nat (max_diameter cfg))%nat /\ L k = []) ->
+         exists o : bfs_out, bfs (impl_of d) cfg starts = Ok o /\ completed o = true.
+Proof. exact @matrix_bfs_completes. Qed.
+Print Assumptions C01_matrix_completes.
